@@ -418,6 +418,9 @@ MIRROR = None  # {"stride": k, "max_cases": n}
 MIRROR_DIFFS = []  # (label, case, debug record, release record, first differing path)
 MIRROR_STATS = {"cases_mirrored": 0, "records_compared": 0, "skipped_crash_or_panic": 0}
 _VOLATILE = ("ms", "wall", "wall_s", "elapsed_ms", "pid")
+import re as _re_mod
+
+_CLOCK = _re_mod.compile(r"\b(now|today)\s*\(")
 ALT_ENV = {"TZ": "Australia/Lord_Howe", "LC_ALL": "tr_TR.UTF-8", "LANG": "tr_TR.UTF-8", "LANGUAGE": "tr", "VERIF_CWD": "/"}
 
 
@@ -481,7 +484,8 @@ def _mirror(cases, results, workdir, label, case_timeout, stack_mib, extra_env):
 def _mirror_(cases, results, workdir, label, case_timeout, stack_mib, extra_env):
     stride = max(1, int(MIRROR.get("stride", 5)))
     offset = int(MIRROR.get("offset", 0)) % stride
-    idx = [k for k in range(len(cases)) if k % stride == offset and isinstance(results[k], dict) and not _has_fault(results[k])]
+    # cases that read the clock (`now()`, `today()`) legitimately give another record every time they run
+    idx = [k for k in range(len(cases)) if k % stride == offset and isinstance(results[k], dict) and not _has_fault(results[k]) and not _CLOCK.search(json.dumps(cases[k]))]
     idx = idx[: int(MIRROR.get("max_cases", 400))]
     if not idx:
         return
